@@ -579,7 +579,8 @@ def remove (s : State) (id : Nat) : State × Bool :=
 /-- `Queue.ReassignValidator` (reached only from `Keeper.ReassignOrphanedMessages`, which has NO
     caller anywhere in /repo — no module, ABCI hook or message server uses it).  It rewrites assignee
     and relayer address and keeps `SignData`.  It is deliberately *not* an `Op`: it is unreachable
-    code.  Props/C06.lean shows what it would do to the property if it were ever wired in. -/
+    code.  Props/C06.lean shows what it would do to the property if it were ever wired in.  (The harness does
+    call the exported keeper method as a step of C14 / C04 histories: that is `reassign` at the end of this file.) -/
 def reassignDead (s : State) (id assignee remote : Nat) : State :=
   match getItem s.queue id with
   | none => s
@@ -883,5 +884,65 @@ def mqapply (s : MQState) : MQOp → MQState
   | .request v es => { s with w := (signRequest s.w v es).1 }
 
 def mqrun (ops : List MQOp) : MQState := ops.foldl mqapply {}
+
+/-! ### assignments other than the first one (C14 / C04): reassignment of stale messages, retry of a failed logic call
+
+`Keeper.ReassignOrphanedMessages` has no caller in /repo (see `reassignDead`), but it is an exported keeper
+method and the harness calls it as a step of a history.  What the JOB demands (the MEV requirement the
+scheduler put on it, whether retries are left) is an input of these steps, told by whoever created the job
+— not read back from the stored message: `JobFlags` = `(message id, MEV demanded, retries left)`. -/
+
+abbrev JobFlags := List (Nat × Bool × Bool)
+
+def mevDemanded (flags : JobFlags) (id : Nat) : Bool := ((assoc? flags id).map (·.1)).getD false
+
+def retryLeft (flags : JobFlags) (id : Nat) : Bool := ((assoc? flags id).map (·.2)).getD false
+
+/-- `Queue.ReassignValidator` + `Message.SetAssignee`: assignee and relayer address are overwritten, nothing
+    else of the queued message is (elected estimate, estimates, fees, signatures, evidence stay). -/
+def handTo (it : Item) (vr : Nat × Nat) : Item := { it with assignee := vr.1, remote := vr.2 }
+
+/-- the loop of `ReassignOrphanedMessages` over one queue: `stale` = ids of the messages older than the block
+    age (an input: the model has no block heights).  Messages with a delivery or error report are skipped; for
+    every other stale message `PickValidatorForMessage` runs with the requirements derived from the job, over the
+    CURRENT environment, and its answer — validator and that validator's account in the current snapshot — is
+    written whoever held the message before (the pool does not exclude the current assignee).  A failing pick
+    ends the loop with an error (`false`); what was reassigned before stays. -/
+def reassignAux (env : Env) (ts : Nat) (flags : JobFlags) : List Item → List Item × Bool
+  | [] => ([], true)
+  | it :: rest =>
+    if (assoc? flags it.id).isSome && !it.pub && !it.err then
+      match pick env (mevDemanded flags it.id) ts with
+      | none => (it :: rest, false)
+      | some vr => (handTo it vr :: (reassignAux env ts flags rest).1, (reassignAux env ts flags rest).2)
+    else (it :: (reassignAux env ts flags rest).1, (reassignAux env ts flags rest).2)
+
+def reassign (s : State) (ts : Nat) (flags : JobFlags) : State × Bool :=
+  ({ s with queue := (reassignAux s.env ts flags s.queue).1 }, (reassignAux s.env ts flags s.queue).2)
+
+/-- one message of `CheckAndProcessAttestedMessages` whose evidence is `SmartContractExecutionErrorProof`s on a
+    SubmitLogicCall (`submitLogicCallAttester.attemptRetry`): without a 2/3 winner nothing happens; with one the
+    message leaves the queue and, when retries are left, the SAME job (payload, sender, requirements) is enqueued
+    again through the relayer pick (`AddSmartContractExecutionToConsensus`); a failing pick enqueues nothing.
+    Other kinds just leave the queue (their attesters are C07's subject; the harness attests logic calls only). -/
+def attestOne (ts : Nat) (flags : JobFlags) (s : State) (it : Item) : State :=
+  if it.evidence.isEmpty then s
+  else
+    match s.env.snapshot with
+    | none => s
+    | some snap =>
+      match Paloma.Libcons.verifyEvidence (libSnap snap) it.evidence with
+      | .notAchieved => s
+      | .winnerIn _ =>
+        if it.kind == .slc && retryLeft flags it.id then
+          (enqueue (remove s it.id).1 .slc it.content it.sender (mevDemanded flags it.id) ts).1
+        else (remove s it.id).1
+
+/-- `CheckAndProcessAttestedMessages`: the messages are read once, then processed in order -/
+def attest (s : State) (ts : Nat) (flags : JobFlags) : State := s.queue.foldl (attestOne ts flags) s
+
+/-- NOT the code that exists: `SetAssignee` with an early exit when the validator stays the same (the relayer
+    address is then not refreshed).  Used only by a negation witness in Props/C14.lean. -/
+def handToKeepSame (it : Item) (vr : Nat × Nat) : Item := if it.assignee == vr.1 then it else handTo it vr
 
 end Paloma.Queue
